@@ -13,10 +13,10 @@ import (
 // One typed position of the grammar. The statement contains the hole "@@"; allowed lists the
 // offered types the position accepts ("void" / "multi" for calls without / with two results).
 type typedPos struct {
-	name    string
-	stmt    string // may span lines
-	allowed []string
-	top     bool // statement only legal at top level (function definitions)
+	name      string
+	stmt      string // may span lines
+	allowed   []string
+	top       bool // statement only legal at top level (function definitions)
 	onlyCalls bool
 	varOnly   bool // the position needs a variable: no call is acceptable
 }
@@ -52,6 +52,9 @@ func typedPositions() []typedPos {
 		{name: "arg-string", stmt: "ts(@@)", allowed: []string{"string"}},
 		{name: "arg-ints", stmt: "tis(@@)", allowed: []string{"[]int"}},
 		{name: "arg-second", stmt: "t2(vi, @@)", allowed: []string{"string"}},
+		{name: "arg-to-parameterless-function", stmt: "fv(@@)", allowed: []string{}},
+		{name: "arg-to-parameterless-function-in-expression", stmt: "x := fi(@@)\nprint(x)", allowed: []string{}},
+		{name: "arg-beyond-last-parameter", stmt: "ti(vi, @@)", allowed: []string{}},
 		{name: "assign-int", stmt: "vi = @@", allowed: []string{"int"}},
 		{name: "assign-bool", stmt: "vb = @@", allowed: []string{"bool"}},
 		{name: "assign-string", stmt: "vs = @@", allowed: []string{"string"}},
@@ -114,13 +117,13 @@ const c06Prelude = "vi := 1\nvi2 := 2\nvb := true\nvs := \"s\"\nvis := []int{1}\
 
 type typOutcome struct {
 	ExpectAccept bool // probes only
-	Kind    string
-	What    string
-	Class   string
-	Pos     string
-	Ctx     string
-	Offered string
-	Src     string
+	Kind         string
+	What         string
+	Class        string
+	Pos          string
+	Ctx          string
+	Offered      string
+	Src          string
 }
 
 var typeSpellings = map[string]string{
